@@ -1171,6 +1171,12 @@ def u_transform_orchestration(c):
     it.policies[AST + ":NodeVisitor.visit_Constant"] = lambda it_, f, a, k: it_.call(it_.getattr(a[0], "generic_visit"), [a[1]], {})
     for nm in ("inspect", "tokenize", "sys", "types"):
         it.module_env(TR).vars[nm] = __import__(nm)
+
+    class _NativeTable(dict):
+        """Stands for ptera.transform._InfoTable (a dict subclass with one attribute; the engine has no model of subclasses of dict)."""
+        loopvars = frozenset()
+
+    it.module_env(TR).vars["_InfoTable"] = _NativeTable
     d = tempfile.mkdtemp(prefix="pvc_transform_")
     try:
         p = os.path.join(d, f"pvc_sample_{c.new_id()}.py")
@@ -1342,6 +1348,25 @@ def u_transform_orchestration(c):
                     note=str({n: (info.get(n) or {}).get("provenance") for n in want}))
             c.prove(f"{label}/entries-carry-name-annotation-doc-location", all(set(e) == {"name", "annotation", "provenance", "doc", "location"} and e["name"] == n
                                                                               for n, e in info.items()))
+            # the table knows which variables are targets of a for loop of the function itself (the names #loop_x / #endloop_x exist for)
+            import inspect as _insp2
+            import textwrap as _tw2
+
+            try:
+                _tree = ast.parse(_tw2.dedent(_insp2.getsource(fn)))
+            except SyntaxError:
+                _tree = ast.parse("if 1:\n" + _insp2.getsource(fn))
+            _root = next(n for n in ast.walk(_tree) if isinstance(n, ast.FunctionDef))
+            _loops, _todo = set(), list(_root.body)
+            while _todo:
+                n_ = _todo.pop()
+                if isinstance(n_, (ast.FunctionDef, ast.AsyncFunctionDef, ast.Lambda, ast.ClassDef)):
+                    continue
+                if isinstance(n_, ast.For):
+                    _loops |= {x.id for x in ast.walk(n_.target) if isinstance(x, ast.Name)}
+                _todo.extend(ast.iter_child_nodes(n_))
+            c.prove(f"{label}/table-knows-the-loop-variables", set(getattr(info, "loopvars", ())) == _loops, note=f"{sorted(getattr(info, 'loopvars', ()))} vs {sorted(_loops)}",
+                    only=["C10", "C01"])
             if label == "plain":
                 c.prove("plain/comment-above-a-binding-becomes-its-doc", info["c"]["doc"] == "the sum")
         for k_ in [k_ for k_ in list(glb) if k_.startswith("__ptera_") or k_.startswith("_ptera__")]:
